@@ -152,9 +152,14 @@ func (x *extractor) genRoutes() {
 	b.WriteString("def privateAuthRefusal : String := " + leanStr(privBody) + "\n")
 	b.WriteString("def privateDispatchPlacement : List String := [" + strings.Join(mapStr(privRoutes, leanStr), ", ") + "]\n")
 	b.WriteString("def withoutAuthCallers : List String := [" + strings.Join(mapStr(withoutAuthCallers, leanStr), ", ") + "]\n")
-	b.WriteString("\nend Robust.Gen.Routes\n")
+	serverHandler, served, defaultMux := x.genServed()
+	b.WriteString("\n/-- the Handler field of the http.Server literal of package main (\"\" = none, i.e. http.DefaultServeMux) -/\ndef serverHandler : String := " + leanStr(serverHandler) + "\n\n")
+	b.WriteString(leanRoutes("servedRoutes", "(pattern, handler, registering package) of every route the listening server can reach", served))
+	b.WriteString(leanRoutes("defaultMuxRoutes", "registrations on http.DefaultServeMux anywhere in the import closure of package main", defaultMux))
+	b.WriteString("end Robust.Gen.Routes\n")
 	x.files["Routes.lean"] = b.String()
-	x.facts["routes"] = map[string]interface{}{"public": routes, "privateCond": privCond, "withoutAuthCallers": withoutAuthCallers}
+	x.facts["routes"] = map[string]interface{}{"public": routes, "privateCond": privCond, "withoutAuthCallers": withoutAuthCallers,
+		"serverHandler": serverHandler, "served": served, "defaultMux": defaultMux}
 }
 
 func mapStr(l []string, f func(string) string) []string {
